@@ -577,6 +577,21 @@ type TCPConn struct {
 	nextArr  int64 // arrival instant of the last byte sent so far (stream order is preserved)
 }
 
+// SetScripted turns the endpoint into a scripted one (callbacks instead of a receive buffer).
+// The fields are read by arrival events on other goroutines in the free-running mode.
+func (c *TCPConn) SetScripted(onData func(c *TCPConn, b []byte), onEOF func(c *TCPConn, rst bool)) {
+	c.mu.Lock()
+	c.Scripted = true
+	c.OnData, c.OnEOF = onData, onEOF
+	c.mu.Unlock()
+}
+
+func (c *TCPConn) isScripted() bool {
+	c.mu.Lock()
+	defer c.mu.Unlock()
+	return c.Scripted
+}
+
 func (c *TCPConn) LocalAddr() net.Addr  { return c.laddr }
 func (c *TCPConn) RemoteAddr() net.Addr { return c.raddr }
 func (c *TCPConn) Peer() *TCPConn       { return c.peer }
@@ -645,7 +660,7 @@ func (n *Net) DialAsync(role string, laddr, raddr *net.TCPAddr, done func(c *TCP
 		}
 		cc, sc := n.newConnPair(role, l.Role+"-conn", laddr, &net.TCPAddr{IP: raddr.IP, Port: raddr.Port})
 		if l.OnConn != nil {
-			sc.Scripted = true
+			sc.SetScripted(nil, nil)
 			l.OnConn(sc)
 		} else {
 			l.mu.Lock()
@@ -779,7 +794,8 @@ func (c *TCPConn) read(p []byte) (int, error) {
 }
 
 func (c *TCPConn) Write(p []byte) (int, error) {
-	if !c.Scripted {
+	scripted := c.isScripted()
+	if !scripted {
 		c.N.K.Yield("sock:"+c.Role+":Write", c.Name)
 		if do, ok := c.N.ioFault(c.Role, "Write"); ok && do == "error" {
 			return 0, errInjected
@@ -798,7 +814,7 @@ func (c *TCPConn) Write(p []byte) (int, error) {
 	c.wrote += len(p)
 	c.BytesOut += len(p)
 	c.mu.Unlock()
-	if !c.Scripted && c.N.Obs != nil {
+	if !scripted && c.N.Obs != nil {
 		c.N.Obs.TCPWrite(c, p)
 	}
 	data := append([]byte(nil), p...)
@@ -845,9 +861,10 @@ func (c *TCPConn) arrive(b []byte) {
 	}
 	if c.Scripted {
 		c.BytesIn += len(b)
+		onData := c.OnData
 		c.mu.Unlock()
-		if c.OnData != nil {
-			c.OnData(c, b)
+		if onData != nil {
+			onData(c, b)
 		}
 		return
 	}
@@ -864,11 +881,11 @@ func (c *TCPConn) arriveFIN(rst bool) {
 	} else {
 		c.in.finArrived = true
 	}
-	scripted := c.Scripted
+	scripted, onEOF := c.Scripted, c.OnEOF
 	c.mu.Unlock()
 	if scripted {
-		if c.OnEOF != nil {
-			c.OnEOF(c, rst)
+		if onEOF != nil {
+			onEOF(c, rst)
 		}
 		return
 	}
@@ -878,7 +895,7 @@ func (c *TCPConn) arriveFIN(rst bool) {
 func (c *TCPConn) reset() { c.closeHow(true) }
 
 func (c *TCPConn) Close() error {
-	if !c.Scripted {
+	if !c.isScripted() {
 		c.N.K.Yield("sock:"+c.Role+":Close", c.Name)
 	}
 	return c.closeHow(false)
